@@ -125,7 +125,17 @@ impl Analysis<Expr> for ExprAnalysis {
         } else {
             DidMerge(false, from.rows != to.rows)
         };
-        let merge_order = egg::merge_max(&mut to.orderby, from.orderby);
+        // An e-class is ordered by some keys only if every plan in it is: the extractor picks a
+        // plan of the class by cost alone, so a claim that holds for one member only (a sort
+        // aggregation next to its hash aggregation, a merge join next to its hash join) would let
+        // `useless-order` drop a sort that the extracted plan still needs. Keep the common prefix.
+        let common = (to.orderby.iter().zip(from.orderby.iter()))
+            .take_while(|(a, b)| a == b)
+            .count();
+        let merge_order = DidMerge(common < to.orderby.len(), common < from.orderby.len());
+        if common < to.orderby.len() {
+            to.orderby = to.orderby[..common].into();
+        }
         merge_const | merge_range | merge_columns | merge_schema | merge_rows | merge_order
     }
 
